@@ -29,10 +29,20 @@ type Actor struct {
 	Addr string
 }
 
+// ShortestOf: when positive, NewActor makes that many wallets and keeps the one with the shortest address (addresses
+// are base58 strings of 49 to 51 characters; the short ones are rare). Set by a workload around the creation of a world.
+var ShortestOf int
+
 func NewActor(name string) *Actor {
 	w, err := wallet.New()
 	if err != nil {
 		panic(err)
+	}
+	for i := 1; i < ShortestOf; i++ {
+		c, err := wallet.New()
+		if err == nil && len(c.Address()) < len(w.Address()) {
+			w = c
+		}
 	}
 	return &Actor{Name: name, W: w, Addr: w.Address()}
 }
